@@ -811,9 +811,12 @@ class Server():
 
             if responder.ended:
                 requestant = self.reqs[ca]
-                if requestant.persisted:
-                    if requestant.parser is None:  # reuse
-                        requestant.makeParser()  # resets requestant parser
+                if requestant.parser is not None:
+                    # already parsing the next request so .persisted may belong
+                    # to that one not to the request this response answered
+                    continue
+                if requestant.persisted:  # reuse
+                    requestant.makeParser()  # resets requestant parser
                 else:  # not persistent so close and remove requestant and responder
                     ix = self.servant.ixes[ca]
                     if not ix.txbs:  # wait for outgoing txbs to be empty
